@@ -506,6 +506,51 @@ def _flat_list(t):
     return None
 
 
+def _through_shared_factory(prog, fac, t, ARGS, norm):
+    """[(extra literals, term)]: t itself, or - where t applies to *ARGS a closure that a method of the same class returns,
+    ``self.M(a, b, ...)(*args)`` - t with that application replaced by each alternative the closure returns (M's formals bound to a, b, ...;
+    its *args renamed), under the literals of that alternative.  Module-level literal tables are read as their values."""
+    from vstat.terms import top_alts as _ta
+    apps = [w for w in walk(t) if isinstance(w, tuple) and w and w[0] == "call" and w[1][0] == "call" and w[1][1][0] == "attr" and w[1][1][1] == SELF
+            and w[2] == (("star", ARGS),) and not w[3]]
+    apps = sorted(set(apps), key=repr)
+    if len(apps) != 1:
+        return [((), t)]
+    app = apps[0]
+    meth = prog.lookup_method(fac.cls, app[1][1][2])
+    if meth is None:
+        return [((), t)]
+    formals = [p_ for p_ in meth.positional_params if p_ != "self"]
+    actual = app[1][2]
+    if len(actual) != len(formals) or app[1][3]:
+        return [((), t)]
+    mod = prog.modules.get(fac.qualname.rsplit(".", 2)[0])
+    consts = {}
+    bm = builder(prog, meth, inline=False)
+    for name, expr in (getattr(mod, "constants", None) or {}).items():
+        if not all(isinstance(n_, (ast.Tuple, ast.List, ast.Constant, ast.BinOp, ast.UnaryOp, ast.operator, ast.unaryop, ast.expr_context)) for n_ in ast.walk(expr)):
+            continue    # literal tables of numbers only (constant arithmetic such as 1 - 1e-12 included)
+        consts[G(f"{mod.name}.{name}")] = bm._term(expr, "ENTRY", {})
+    bind_ = {P(f_): subst(a_, consts) for f_, a_ in zip(formals, actual)}
+    pm = path_conditions(prog, meth, bm)
+    out = []
+    for r_ in [s_ for s_ in cfg_of(meth).all_stmts() if isinstance(s_, ast.Return)]:
+        for fl, alt in _ta(bm.term(r_.value, r_)):
+            inner = prog.functions.get(alt[1]) if alt[0] == "func" else None
+            if inner is None or inner.node.args.vararg is None:
+                return [((), t)]
+            bi = builder(prog, inner, inline=False, guarded=True)
+            pi = path_conditions(prog, inner, bi)
+            for ir in [s_ for s_ in cfg_of(inner).all_stmts() if isinstance(s_, ast.Return)]:
+                rt = bi.term(ir.value, ir)
+                m_ = dict(bind_)
+                m_[P(inner.node.args.vararg.arg)] = ARGS
+                for il, ialt in _ta(rt):
+                    lits = tuple(subst(l_, m_) for l_ in tuple(pm.of(r_)) + tuple(fl) + tuple(pi.of(ir)) + tuple(il))
+                    out.append((tuple(norm(l_) for l_ in lits), norm(subst(t, {app: subst(ialt, m_)}))))
+    return out or [((), t)]
+
+
 _range_done = set()
 
 
@@ -563,25 +608,28 @@ def _range_factory(prog, rep, fac, kind="range"):
             if a_ != ARGS:
                 t = subst(t, {a_: ARGS})
             t = _norm(t)
-            if kind == "points":
-                # the options of one variable: a dict whose 'points' are break points for quad
-                ent = dict(t[1]) if t[0] == "dict" else {}
-                pt = ent.get(("const", "points"))
-                if pt is None:
+            # the quantiles may come from a closure that a shared factory method of the class returns (one for ranges and break points):
+            # its returned alternatives are read in place of the call, with its formals bound to the arguments
+            for xl_, t in _through_shared_factory(prog, fac, t, ARGS, _norm):
+                if kind == "points":
+                    # the options of one variable: a dict whose 'points' are break points for quad
+                    ent = dict(t[1]) if t[0] == "dict" else ({(("const", k_)): v_ for k_, v_ in t[3]} if t[0] == "call" and t[1] == G("dict") and not t[2] else {})
+                    pt = ent.get(("const", "points"))
+                    if pt is None:
+                        shape_ok = False
+                        continue
+                    for pl_, palt in _ta(pt):
+                        pairs.append((tuple(pf.of(r_)) + tuple(fl) + tuple(xl_) + tuple(pl_), palt, None))
+                    continue
+                if not (t[0] == "tuple" and len(t[1]) == 2):
                     shape_ok = False
                     continue
-                for pl_, palt in _ta(pt):
-                    pairs.append((tuple(pf.of(r_)) + tuple(fl) + tuple(pl_), palt, None))
-                continue
-            if not (t[0] == "tuple" and len(t[1]) == 2):
-                shape_ok = False
-                continue
-            los, his = sorted(_ta(t[1][0]), key=repr), sorted(_ta(t[1][1]), key=repr)
-            if len(los) != len(his):
-                shape_ok = False
-                continue
-            for (ll, lo), (hl, hi) in zip(los, his):
-                pairs.append((tuple(pf.of(r_)) + tuple(fl) + tuple(ll), lo, hi))
+                los, his = sorted(_ta(t[1][0]), key=repr), sorted(_ta(t[1][1]), key=repr)
+                if len(los) != len(his):
+                    shape_ok = False
+                    continue
+                for (ll, lo), (hl, hi) in zip(los, his):
+                    pairs.append((tuple(pf.of(r_)) + tuple(fl) + tuple(xl_) + tuple(ll), lo, hi))
     ok_q = ok_p = ok_g = shape_ok and bool(pairs)
     why_q = why_g = f"found {[show(p_[1])[:120] for p_ in pairs][:2]}"
     if ok_q:
